@@ -1,1 +1,199 @@
 // in-crate Kani harnesses included into the real crate under cfg(kani) (see MANIFEST.hooks)
+// C06: X-Amz-Expires parsing and the parameter handling of PresignedUrlV4::parse.
+mod verif_kani_presigned_v4 {
+    use super::*;
+
+    fn utf8_ok(_v: &[u8]) -> Result<(), core::str::Utf8Error> {
+        Ok(())
+    }
+    fn naive_memchr(x: u8, text: &[u8]) -> Option<usize> {
+        let mut i = 0;
+        while i < text.len() {
+            if text[i] == x {
+                return Some(i);
+            }
+            i += 1;
+        }
+        None
+    }
+    fn cpuid_zero(_leaf: u32, _sub: u32) -> core::arch::x86_64::CpuidResult {
+        core::arch::x86_64::CpuidResult { eax: 0, ebx: 0, ecx: 0, edx: 0 }
+    }
+    fn sha_shape_ok(_s: &str) -> bool {
+        true
+    }
+
+    /// Reference for the text of X-Amz-Expires ("an integer number of seconds", > 0): decimal digits, value > 0.
+    /// Rust's `u32::from_str`, which the code uses, additionally accepts ONE leading '+' (observation: "+60" is
+    /// accepted as 60; harmless, the parameter is part of the signed query).  N <= 4 so no overflow here.
+    fn ref_expires(t: &[u8]) -> Option<i64> {
+        let mut i = 0;
+        if t.len() > 0 && t[0] == b'+' {
+            i = 1;
+        }
+        if i >= t.len() {
+            return None;
+        }
+        let mut v: i64 = 0;
+        while i < t.len() {
+            if !(t[i] >= b'0' && t[i] <= b'9') {
+                return None;
+            }
+            v = v * 10 + (t[i] - b'0') as i64;
+            i += 1;
+        }
+        if v > 0 { Some(v) } else { None }
+    }
+
+    /// All N-byte 7-bit texts: `parse_expires` = Some(d) iff the text denotes a positive integer (reference above),
+    /// and then d is exactly that many whole seconds (no sub-second part).
+    fn expires_text<const N: usize>() {
+        let b: [u8; N] = kani::any();
+        let mut i = 0;
+        while i < N {
+            kani::assume(b[i] < 128);
+            i += 1;
+        }
+        let got = parse_expires(core::str::from_utf8(&b).unwrap());
+        match (got, ref_expires(&b)) {
+            (Some(d), Some(v)) => assert!(d.whole_seconds() == v && d.subsec_nanoseconds() == 0),
+            (None, None) => {}
+            _ => panic!("parse_expires differs from the reference"),
+        }
+        kani::cover!(got.is_some());
+        kani::cover!(got.is_none());
+    }
+
+    #[kani::proof]
+    #[kani::unwind(8)]
+    #[kani::stub(core::str::validations::run_utf8_validation, utf8_ok)]
+    fn c06_parse_expires_len1to4() {
+        expires_text::<1>();
+        expires_text::<2>();
+        expires_text::<3>();
+        expires_text::<4>();
+    }
+
+    /// Edge values: empty, zero, u32::MAX accepted (no 7-day cap: observation), u32::MAX+1 and 11 digits refused,
+    /// negative refused.
+    #[kani::proof]
+    #[kani::unwind(14)]
+    #[kani::stub(core::str::validations::run_utf8_validation, utf8_ok)]
+    fn c06_parse_expires_edges() {
+        assert!(parse_expires("").is_none());
+        assert!(parse_expires("0").is_none());
+        assert!(parse_expires("000").is_none());
+        assert!(parse_expires("-1").is_none());
+        assert!(parse_expires("4294967296").is_none());
+        assert!(parse_expires("99999999999").is_none());
+        assert!(matches!(parse_expires("4294967295"), Some(d) if d.whole_seconds() == 4294967295));
+        assert!(matches!(parse_expires("604800"), Some(d) if d.whole_seconds() == 604800));
+        assert!(matches!(parse_expires("604801"), Some(d) if d.whole_seconds() == 604801));
+        kani::cover!(true);
+    }
+
+    const PARAMS: [(&str, &str); 6] = [
+        ("X-Amz-Algorithm", "AWS4-HMAC-SHA256"),
+        ("X-Amz-Credential", "AK/20130524/us/s3/aws4_request"),
+        ("X-Amz-Date", "20130524T000000Z"),
+        ("X-Amz-Expires", "86400"),
+        ("X-Amz-SignedHeaders", "host;x-amz-date"),
+        ("X-Amz-Signature", "e3b0c44298fc1c149afbf4c8996fb92427ae41e4649b934ca495991b7852b855"),
+    ];
+
+    /// mode 0: all six parameters once; mode 1: parameter k missing; mode 2: parameter k twice (same value);
+    /// mode 3: parameter k twice, the second time with another value.  An unrelated parameter "versionId" is present.
+    fn build(mode: u8, k: usize) -> OrderedQs {
+        let mut v: Vec<(String, String)> = Vec::with_capacity(8);
+        v.push((String::from("versionId"), String::from("1")));
+        let mut j = 0;
+        while j < 6 {
+            let (n, val) = PARAMS[j];
+            if !(mode == 1 && j == k) {
+                v.push((String::from(n), String::from(val)));
+            }
+            if mode == 2 && j == k {
+                v.push((String::from(n), String::from(val)));
+            }
+            if mode == 3 && j == k {
+                v.push((String::from(n), String::from("x")));
+            }
+            j += 1;
+        }
+        OrderedQs::kani_from_vec(v)
+    }
+
+    fn eqs(a: &str, b: &str) -> bool {
+        let (a, b) = (a.as_bytes(), b.as_bytes());
+        if a.len() != b.len() {
+            return false;
+        }
+        let mut i = 0;
+        while i < a.len() {
+            if a[i] != b[i] {
+                return false;
+            }
+            i += 1;
+        }
+        true
+    }
+
+    /// The complete parameter set parses to exactly the written values (credential split into its scope, signed
+    /// headers split at ';' in order, expiry in seconds).
+    #[cfg(kani_unfinished)] // did not finish within the budget (see the C05/C06/C11 report); enable with --cfg kani_unfinished
+    #[kani::proof]
+    #[kani::unwind(24)]
+    #[kani::stub(core::str::validations::run_utf8_validation, utf8_ok)]
+    #[kani::stub(core::slice::memchr::memchr, naive_memchr)]
+    #[kani::stub(core::arch::x86_64::__cpuid_count, cpuid_zero)]
+    #[kani::stub(crate::utils::crypto::is_sha256_checksum, sha_shape_ok)]
+    fn c06_presigned_v4_parse_complete() {
+        let qs = build(0, 0);
+        let p = PresignedUrlV4::parse(&qs).ok().unwrap();
+        assert!(eqs(p.algorithm, "AWS4-HMAC-SHA256"));
+        assert!(eqs(p.credential.access_key_id, "AK") && eqs(p.credential.date, "20130524"));
+        assert!(eqs(p.credential.aws_region, "us") && eqs(p.credential.aws_service, "s3"));
+        assert!(p.expires.whole_seconds() == 86400);
+        assert!(p.signed_headers.len() == 2 && eqs(p.signed_headers[0], "host") && eqs(p.signed_headers[1], "x-amz-date"));
+        assert!(eqs(p.signature, PARAMS[5].1));
+        core::mem::forget(p);
+        core::mem::forget(qs);
+        kani::cover!(true);
+    }
+
+    /// For each of the six X-Amz-* parameters k: the query without k, with k repeated, and with k repeated with a
+    /// different value is refused (every parameter is read through get_unique).
+    fn missing_or_dup(k: usize) {
+        let mut mode = 1u8;
+        while mode <= 3 {
+            let qs = build(mode, k);
+            let r = PresignedUrlV4::parse(&qs);
+            assert!(r.is_err());
+            core::mem::forget(r);
+            core::mem::forget(qs);
+            mode += 1;
+        }
+        kani::cover!(true);
+    }
+
+    macro_rules! missing_dup_harness {
+        ($name:ident, $k:expr) => {
+            #[cfg(kani_unfinished)] // did not finish within the budget (see the C05/C06/C11 report); enable with --cfg kani_unfinished
+            #[kani::proof]
+            #[kani::unwind(24)]
+            #[kani::stub(core::str::validations::run_utf8_validation, utf8_ok)]
+            #[kani::stub(core::slice::memchr::memchr, naive_memchr)]
+            #[kani::stub(core::arch::x86_64::__cpuid_count, cpuid_zero)]
+            #[kani::stub(crate::utils::crypto::is_sha256_checksum, sha_shape_ok)]
+            fn $name() {
+                missing_or_dup($k);
+            }
+        };
+    }
+    missing_dup_harness!(c06_presigned_v4_param_algorithm, 0);
+    missing_dup_harness!(c06_presigned_v4_param_credential, 1);
+    missing_dup_harness!(c06_presigned_v4_param_date, 2);
+    missing_dup_harness!(c06_presigned_v4_param_expires, 3);
+    missing_dup_harness!(c06_presigned_v4_param_signed_headers, 4);
+    missing_dup_harness!(c06_presigned_v4_param_signature, 5);
+}
